@@ -59,6 +59,17 @@ fn check_prog(prog: &T, env: &T, flagsets: &[ClvmFlags], faults: bool, acc: &mut
         let mut d = 0usize;
         let final_need = match which { "heap" => unconstrained.counts.2 - h0, "atoms" => unconstrained.counts.0 - a0, _ => unconstrained.counts.1 - p0 };
         let sweep_cap = final_need + 3000;
+        // every headroom when the need is small; for large needs (the sweep is quadratic in the need) every headroom
+        // within 300 of zero and of the final need, and a 5 % geometric ladder in between and beyond
+        let dense = final_need <= 6000;
+        let next = |d: usize| -> usize {
+            if dense || d < 300 || (d + 300 >= final_need && d <= final_need + 300) {
+                d + 1
+            } else {
+                let n = d + (d / 20).max(1);
+                if d < final_need.saturating_sub(300) { n.min(final_need - 300) } else { n }
+            }
+        };
         while d <= sweep_cap && reached < 3 {
             let r = std::panic::catch_unwind(std::panic::AssertUnwindSafe(|| {
                 if which == "heap" {
@@ -97,7 +108,7 @@ fn check_prog(prog: &T, env: &T, flagsets: &[ClvmFlags], faults: bool, acc: &mut
                     }
                 }
             }
-            d += 1;
+            d = next(d);
         }
         if reached == 0 {
             acc.inc("sweep_cap_reached_without_success");
@@ -295,7 +306,7 @@ pub fn run(ctx: &Ctx) -> Report {
     rep.states = rep.acc.get("programs");
     rep.transitions = rep.evaluations;
     rep.traces = rep.evaluations;
-    rep.rule = "every program of 12 spaces (all opcodes over constants / big operands / raw improper forms, compositions, every small tree as a program, families, guards, GC candidates, repository vectors, limit-size operands, deep paths) x {no flags, MEMPOOL_MODE, ENABLE_GC, NEW_COST_MODEL, every defined flag bit} x budgets {0, 1, C-1, C, u64::MAX} through run_program under catch_unwind in a build with overflow checks and debug assertions; for the allocation-heavy spaces additionally EVERY heap limit from the loaded size to the final size+1 and every atom/pair-cap headroom 0..need+1 (the k-th allocation fails, all k); every opcode called directly with every argument list of arity <=2|3 over constants, a pair, a 300-byte atom and valid G1/G2 points, proper and improper, in inline and heap representation, 3 flag sets x 4 budgets; deep structures (10^3..10^6 nested operands / list length / pairs in operator position / environment depth / nested applies) in a child process with an 8 MiB stack. Oracle: no panic, abort or stack overflow, never EvalErr::InternalError; allocator caps reported with the matching error. Non-trivial = runs that returned (Ok or a non-internal error).".into();
+    rep.rule = "every program of 12 spaces (all opcodes over constants / big operands / raw improper forms, compositions, every small tree as a program, families, guards, GC candidates, repository vectors, limit-size operands, deep paths) x {no flags, MEMPOOL_MODE, ENABLE_GC, NEW_COST_MODEL, every defined flag bit} x budgets {0, 1, C-1, C, u64::MAX} through run_program under catch_unwind in a build with overflow checks and debug assertions; for the allocation-heavy spaces additionally EVERY heap limit from the loaded size to the final size+1 and every atom/pair-cap headroom 0..need+1 (the k-th allocation fails, all k; for needs above 6000 every headroom within 300 of zero and of the need and a 5 % geometric ladder between); every opcode called directly with every argument list of arity <=2|3 over constants, a pair, a 300-byte atom and valid G1/G2 points, proper and improper, in inline and heap representation, 3 flag sets x 4 budgets; deep structures (10^3..10^6 nested operands / list length / pairs in operator position / environment depth / nested applies) in a child process with an 8 MiB stack. Oracle: no panic, abort or stack overflow, never EvalErr::InternalError; allocator caps reported with the matching error. Non-trivial = runs that returned (Ok or a non-internal error).".into();
     rep.assumptions.push("the build uses opt-level 2 with overflow-checks and debug-assertions on, so arithmetic wrap-around and debug_assert! failures surface as panics".into());
     rep
 }
